@@ -135,10 +135,11 @@ pub fn replay(args: &Args) {
             other => panic!("unknown op {other}"),
         });
 
+        // iterating the result is part of the behaviour under test: a panic there is data
+        let res = res.and_then(|(ev, r)| guarded(|| (repr_json(&r), tiling_json(&r))).map(|(repr, til)| (ev, repr, til)));
+
         match res {
-            Ok((mut ev, r)) => {
-                let repr = repr_json(&r);
-                let til = tiling_json(&r);
+            Ok((mut ev, repr, til)) => {
 
                 if same_repr(&repr, &line["r"]) && same_repr(&til, &line["til"]) {
                     exact += 1;
@@ -223,6 +224,7 @@ pub fn record(args: &Args) {
 
         let steps = 1 + rng.below(8);
 
+        let outcome = guarded(std::panic::AssertUnwindSafe(|| {
         for _ in 0..steps {
             if pool.len() < 2 || rng.chance(1, 2) {
                 let ranges = random_ranges(&mut rng, &anchors);
@@ -245,9 +247,16 @@ pub fn record(args: &Args) {
             }
         }
 
+        }));
+
+        if let Err(p) = outcome {
+            // a panic of the code under test is data: an event no law explains
+            chain.push(json!({"op": "panic", "panic": p, "r": [], "til": [], "sorted_comments": true}));
+        }
+
         if corrupt > 0 && line + 1 == corrupt {
             // falsify one recorded result: flip the kind of the first tile of the last event
-            let last = chain.last_mut().unwrap();
+            let last = chain.iter_mut().rev().find(|e| e["op"] != "panic").unwrap();
             let k = last["til"][0][2].as_str().unwrap().to_string();
             last["til"][0][2] = json!(if k == "open" { "unknown" } else { "open" });
         }
